@@ -39,6 +39,8 @@ pub fn writer_classes() -> Vec<&'static str> {
         "ack_base_zero_bits", "ack_base_negative", "ack_base_2e62", "ack_base_max", "ack_bits_256_far", "ack_numbits_300",
         "ack_count_min", "ack_request_unwritten", "nackfrag_huge", "nackfrag_zero", "ack_truncated", "ack_unknown_writer",
         "seq_ack_far_then_low", "seq_ack_low_bits_then_far",
+        // several ACKNACKs in one datagram (they queue up behind each other on their way to the writers)
+        "ack_unknown_writer_burst", "ack_unknown_known_mixed",
     ]
 }
 
@@ -348,6 +350,16 @@ pub fn writer_datagrams(cls: &str, ctx: &Ctx) -> Vec<Vec<u8>> {
         }
         "seq_ack_far_then_low" => vec![ack(NumSet::empty(n + (1i64 << 40)), c), ack(NumSet::from_set(1, &[1, 2, 3]), c + 1)],
         "seq_ack_low_bits_then_far" => vec![ack(NumSet { base: 1, num_bits: 256, words: vec![0xffff_ffff; 8] }, c), ack(NumSet::empty(n + (1i64 << 40)), c + 1), ack(NumSet { base: 1, num_bits: 256, words: vec![0xffff_ffff; 8] }, c + 2)],
+        "ack_unknown_writer_burst" => {
+            // as other implementations send for built-in writers this one does not have (e.g. entity id [0,3,0])
+            let one = |c2: i32| Sub::AckNack { reader: [0, 3, 0, 0xc4], writer: [0, 3, 0, 0xc3], set: NumSet::empty(1), count: c2, final_flag: true };
+            vec![wire::encode(p, &[one(c), one(c + 1), one(c + 2)]), wire::encode(p, &[one(c + 3), one(c + 4)])]
+        }
+        "ack_unknown_known_mixed" => {
+            let unk = |c2: i32| Sub::AckNack { reader: ctx.reader_eid, writer: [9, 9, 9, 2], set: NumSet::empty(5), count: c2, final_flag: true };
+            let known = |c2: i32| Sub::AckNack { reader: ctx.reader_eid, writer: ctx.writer_eid, set: NumSet::empty(1), count: c2, final_flag: true };
+            vec![wire::encode(p, &[unk(c), known(c + 1), unk(c + 2), unk(c + 3), known(c + 4)])]
+        }
         "ack_unknown_writer" => vec![wire::encode(p, &[Sub::AckNack { reader: ctx.reader_eid, writer: [9, 9, 9, 2], set: NumSet::empty(5), count: c, final_flag: true }])],
         _ => vec![],
     }
